@@ -429,9 +429,6 @@ func verifC14Compress(frames []refws.Frame) {
 				break
 			}
 		}
-		if !done {
-			continue
-		}
 		total := 0
 		for _, j := range idx {
 			total += len(frames[j].Payload)
@@ -439,16 +436,20 @@ func verifC14Compress(frames []refws.Frame) {
 		if total == 0 {
 			continue
 		}
+		want := total
+		if !done {
+			want = total + 7 // an unfinished message carries the first bytes of a valid stream, not garbage
+		}
 		var w []byte
-		if v, ok := verifC14DeflCache.Load(total); ok {
+		if v, ok := verifC14DeflCache.Load(want); ok {
 			w = v.([]byte)
 		} else {
 			var err error
-			w, _, err = refws.DeflateExact(total, func(b []byte) { copy(b, verifC14Fill) })
+			w, _, err = refws.DeflateExact(want, func(b []byte) { copy(b, verifC14Fill) })
 			if err != nil {
 				continue
 			}
-			verifC14DeflCache.Store(total, w)
+			verifC14DeflCache.Store(want, w)
 		}
 		for _, j := range idx {
 			n := len(frames[j].Payload)
